@@ -486,4 +486,128 @@ theorem dictOf_childPerm (t t' : PTree) (h : ChildPermT t t') : DictPerm (.dict 
   | true => exact .some (valT_childPerm h)
   | false => exact .none
 
+/-! ### the special case: only differently named siblings change places
+
+When the permutation keeps same-named siblings in their relative order — `Inception` after `Expiration`,
+`RequestPolicy` after the `RequestBundle`s, a `Signer` between two `Key`s — no list entry moves: the two
+readings are `DictEq`, Python's `==`, and the glue (a congruence for `DictEq`, XmlGlueEq.lean) returns the SAME
+object or raises the SAME error. -/
+
+mutual
+/-- `t'` is `t` with child elements reordered at every level, same-named siblings keeping their relative order -/
+inductive ChildMoveT : PTree → PTree → Prop
+  | leaf (n : List Char) (a : Attrs) (g g' text : List Char) : ChildMoveT (.leaf n a g text) (.leaf n a g' text)
+  | empty (n : List Char) (a : Attrs) (g g' : List Char) : ChildMoveT (.empty n a g) (.empty n a g')
+  | node (n : List Char) (a : Attrs) (g g' pre pre' post post' : List Char) {first first' : PTree}
+      {rest rest' : PForest} : ChildMoveL (first :: forestList rest) (first' :: forestList rest') →
+      ChildMoveT (.node n a g pre first rest post) (.node n a g' pre' first' rest' post')
+inductive ChildMoveL : List PTree → List PTree → Prop
+  | nil : ChildMoveL [] []
+  | cons {t t' : PTree} {l l' : List PTree} : ChildMoveT t t' → ChildMoveL l l' → ChildMoveL (t :: l) (t' :: l')
+  | swap (t u : PTree) (l : List PTree) : t.name ≠ u.name → ChildMoveL (t :: u :: l) (u :: t :: l)
+  | trans {a b c : List PTree} : ChildMoveL a b → ChildMoveL b c → ChildMoveL a c
+end
+
+theorem ChildMoveT.name : ∀ {t t' : PTree}, ChildMoveT t t' → t.name = t'.name
+  | _, _, .leaf .. => rfl
+  | _, _, .empty .. => rfl
+  | _, _, .node .. => rfl
+
+mutual
+/-- a special case of `ChildPermT` -/
+theorem ChildMoveT.perm : ∀ {t t' : PTree}, ChildMoveT t t' → ChildPermT t t'
+  | _, _, .leaf n a g g' text => .leaf n a g g' text
+  | _, _, .empty n a g g' => .empty n a g g'
+  | _, _, .node n a g g' pre pre' post post' h => .node n a g g' pre pre' post post' (ChildMoveL.perm h)
+theorem ChildMoveL.perm : ∀ {l l' : List PTree}, ChildMoveL l l' → ChildPermL l l'
+  | _, _, .nil => .nil
+  | _, _, .cons h t => .cons (ChildMoveT.perm h) (ChildMoveL.perm t)
+  | _, _, .swap t u l _ => .swap t u l
+  | _, _, .trans h h' => .trans (ChildMoveL.perm h) (ChildMoveL.perm h')
+end
+
+theorem DictRel.trans {a b c : Dict} (h : DictRel a b) (h' : DictRel b c) : DictRel a c :=
+  (DictEq.trans (DictEq.of_rel h) (DictEq.of_rel h')).rel
+
+/-- two `_store_element`s under DIFFERENT names commute up to `DictEq` -/
+theorem storeElement_swap_ne {d d' : Dict} (h : DictRel d d') {n m : List Char} (hnm : n ≠ m) (v w : XVal) :
+    DictRel (storeElement (storeElement d n v) m w) (storeElement (storeElement d' m w) n v) := by
+  have h1 : DictRel (storeElement (storeElement d n v) m w) (storeElement (storeElement d' n v) m w) :=
+    storeElement_rel (storeElement_rel h n (DictEq.refl v)) m (DictEq.refl w)
+  refine h1.trans ?_
+  apply dictRel_of_lookups
+  intro k
+  have hrefl : ∀ (x : Dict) (k : List Char), (x.lookup k = none ∧ x.lookup k = none) ∨
+      ∃ v v', x.lookup k = some v ∧ x.lookup k = some v' ∧ DictEq v v' := fun x k => (DictRel.refl x).lookups k
+  by_cases hk : k = n
+  · subst hk
+    rw [storeElement_other _ _ _ _ hnm, storeElement_self, storeElement_self, storeElement_other _ _ _ _ hnm]
+    exact Or.inr ⟨_, _, rfl, rfl, DictEq.refl _⟩
+  · by_cases hk2 : k = m
+    · subst hk2
+      rw [storeElement_self, storeElement_other _ _ _ _ hk, storeElement_other _ _ _ _ hk, storeElement_self]
+      exact Or.inr ⟨_, _, rfl, rfl, DictEq.refl _⟩
+    · simp only [storeElement_other _ _ _ _ hk, storeElement_other _ _ _ _ hk2]
+      exact hrefl d' k
+
+theorem storeL_sameE (l : List PTree) : ∀ {d d' : Dict}, DictRel d d' → DictRel (storeL d l) (storeL d' l) := by
+  induction l with
+  | nil => intro d d' h; exact h
+  | cons t l ih =>
+    intro d d' h
+    simp only [storeL, List.foldl_cons]
+    exact ih (storeElement_rel h _ (DictEq.refl _))
+
+theorem elementValue_relE (a : Option Attrs) {v v' : XVal} (hv : DictEq v v') :
+    DictEq (elementValue a v) (elementValue a v') := by
+  cases a with
+  | none => exact hv
+  | some a =>
+    simp only [elementValue]
+    apply DictEq.of_rel
+    apply dictRel_of_lookups
+    intro k
+    by_cases h1 : k = kAttrs
+    · subst h1
+      exact Or.inr ⟨.dict (a.map fun p => (p.1, .str p.2)), .dict (a.map fun p => (p.1, .str p.2)),
+        by simp [List.lookup], by simp [List.lookup], DictEq.refl _⟩
+    · by_cases h2 : k = kValue
+      · subst h2
+        have hne : (kValue == kAttrs) = false := by decide
+        exact Or.inr ⟨v, v', by simp [List.lookup, hne], by simp [List.lookup, hne], hv⟩
+      · have e1 : (k == kAttrs) = false := by simpa using h1
+        have e2 : (k == kValue) = false := by simpa using h2
+        exact Or.inl ⟨by simp [List.lookup, e1, e2], by simp [List.lookup, e1, e2]⟩
+
+mutual
+/-- **Reordering differently named siblings leaves the standard reading `==`.** -/
+theorem valT_childMove : ∀ {t t' : PTree}, ChildMoveT t t' → DictEq (valT t) (valT t')
+  | _, _, .leaf n a g g' text => DictEq.refl _
+  | _, _, .empty n a g g' => DictEq.refl _
+  | _, _, .node n a g g' pre pre' post post' h => by
+    rw [valT_node, valT_node]
+    exact elementValue_relE _ (DictEq.of_rel (storeL_childMove h (DictRel.refl [])))
+theorem storeL_childMove : ∀ {l l' : List PTree}, ChildMoveL l l' → ∀ {d d' : Dict}, DictRel d d' →
+    DictRel (storeL d l) (storeL d' l')
+  | _, _, .nil, _, _, hd => hd
+  | _, _, .cons (t := t) (t' := t') ht hl, _, _, hd => by
+    simp only [storeL, List.foldl_cons]
+    rw [← ht.name]
+    exact storeL_childMove hl (storeElement_rel hd _ (valT_childMove ht))
+  | _, _, .swap t u l hne, _, _, hd => by
+    simp only [storeL, List.foldl_cons]
+    exact storeL_sameE l (storeElement_swap_ne hd hne _ _)
+  | _, _, .trans h h', _, _, hd =>
+    (storeL_childMove h hd).trans (storeL_childMove h' (DictRel.refl _))
+end
+
+theorem dictOf_childMove (t t' : PTree) (h : ChildMoveT t t') : DictEq (.dict (dictOf t)) (.dict (dictOf t')) := by
+  have := storeElement_rel (DictRel.refl []) t.name (valT_childMove h)
+  have e : ∀ (n : List Char) (v : XVal), storeElement [] n v = [(n, v)] := by
+    intro n v; simp [storeElement, List.lookup]
+  rw [e, e] at this
+  unfold dictOf
+  rw [← h.name]
+  exact DictEq.of_rel this
+
 end Kskm.Xml
